@@ -800,6 +800,8 @@ def r06_aggregation(ctx, rule_dc: str = 'R06.2', rule_norm: str = 'R06.3') -> Li
         c = calls[0]
         pf = c.args[1] if len(c.args) > 1 else None
         target = None
+        if isinstance(pf, ast.Call) and ast.unparse(pf.func) in ('partial', 'functools.partial') and pf.args:
+            pf = pf.args[0]          # partial(pair_function, ...) passed directly
         if isinstance(pf, ast.Name):
             if pf.id in wm.partials.get(f.qual, {}):
                 target = wm.partials[f.qual][pf.id][0]
@@ -846,6 +848,11 @@ def r06_aggregation(ctx, rule_dc: str = 'R06.2', rule_norm: str = 'R06.3') -> Li
         acc = [s for s in lp.body if (isinstance(s, ast.AugAssign) and isinstance(s.op, ast.Add) and ast.unparse(s.target) == accn) or
                (isinstance(s, ast.Assign) and ast.unparse(s.targets[0]) == accn and isinstance(s.value, ast.BinOp) and
                 isinstance(s.value.op, ast.Add) and accn in (ast.unparse(s.value.left), ast.unparse(s.value.right)))]
+        # the denominator: len(<the list iterated over>), spelled out or kept in a once-assigned local
+        den_defs = [n for n in ast.walk(gd.node) if isinstance(n, ast.Assign) and len(n.targets) == 1 and
+                    isinstance(n.targets[0], ast.Name) and n.targets[0].id == den]
+        if len(den_defs) == 1:
+            den = ast.unparse(den_defs[0].value)
         good = den == f"len({ast.unparse(lp.iter)})" and len(acc) == 1
     obs.append(ok(rule_norm, t, gd.loc(), construct=f"{_fn(gd)}::mean") if good else violation(rule_norm, t, gd.loc(), key=f"{_fn(gd)}::mean-of-pairs"))
     for f in wm.funcs:
